@@ -1,5 +1,429 @@
-// IdSet / Arena histories (C37, C38): filled in with the specs for those properties.
-pub fn main(_args: &[String]) {
-    eprintln!("utils mode not built yet");
-    std::process::exit(2);
+// IdSet / Arena history replay (C37, C38).
+//
+//   abra_conform utils <cases.ndjson> <obs.ndjson> [--from N] [--count M]
+//
+// Replays TLC-generated operation histories on the real utils::id_set::IdSet and utils::arena::Arena
+// through their safe public APIs only and prints what it sees. It knows nothing about what is correct:
+// expected projections come from spec/utils/IdSet.tla, the address predicates from spec/utils/Arena.tla.
+// The same file is compiled into harness/utilsmiri (a crate depending on /repo/utils only) so that the
+// identical replay runs under AddressSanitizer and under Miri; a sanitizer abort is detected by the driver
+// from the missing lines: the observation file is written one line per step and flushed, in this order:
+//   {"id","begin":true}  ( {"id","k","op":{..}}  {"id","k","proj":[..]} )*  {"id","end":true}
+use serde_json::{Map, Value as J, json};
+use std::hash::Hash;
+use std::io::Write;
+use std::panic::{AssertUnwindSafe, catch_unwind};
+use utils::arena::Arena;
+use utils::arena::arena_ref::Ar;
+use utils::id_set::IdSet;
+
+/// A sanitizer that can continue after an error (AddressSanitizer in recover mode, see harness/utilsmiri)
+/// reports through this probe: Some(report) once since the last call if an error was reported.
+pub type UbProbe = fn() -> Option<String>;
+
+#[allow(dead_code)]
+pub fn main(args: &[String]) {
+    main_with(args, None)
+}
+
+pub fn main_with(args: &[String], probe: Option<UbProbe>) {
+    let args: Vec<&String> = args.iter().filter(|a| a.as_str() != "utils").collect();
+    if args.len() < 2 {
+        eprintln!("usage: utils <cases.ndjson> <obs.ndjson> [--from N] [--count M]");
+        std::process::exit(2);
+    }
+    let optv = |name: &str, default: usize| -> usize {
+        args.iter()
+            .position(|a| a.as_str() == name)
+            .and_then(|i| args.get(i + 1))
+            .and_then(|v| v.parse().ok())
+            .unwrap_or(default)
+    };
+    let from = optv("--from", 0);
+    let count = optv("--count", usize::MAX);
+    let text = std::fs::read_to_string(args[0]).unwrap_or_else(|e| {
+        eprintln!("cannot read {}: {e}", args[0]);
+        std::process::exit(2)
+    });
+    let mut out = std::fs::OpenOptions::new()
+        .create(true)
+        .append(true)
+        .open(args[1])
+        .unwrap_or_else(|e| {
+            eprintln!("cannot open {}: {e}", args[1]);
+            std::process::exit(2)
+        });
+    // expected panics (Index out of range, get_id of an absent value: Option::unwrap on None) are caught and reported
+    // as values: keep them silent; anything else (e.g. a debug check of an unsafe precondition inside std, which does
+    // not unwind and kills the process) is worth a line on stderr
+    std::panic::set_hook(Box::new(|info| {
+        let s = info.to_string();
+        if !s.contains("Option::unwrap()") {
+            eprintln!("{s}");
+        }
+    }));
+    for line in text
+        .lines()
+        .filter(|l| !l.trim().is_empty())
+        .skip(from)
+        .take(count)
+    {
+        let case: J = serde_json::from_str(line).unwrap_or_else(|e| {
+            eprintln!("bad case line: {e}");
+            std::process::exit(2)
+        });
+        let id = case["id"].as_str().unwrap_or("?").to_string();
+        let mut o = Out { f: &mut out, id, probe };
+        o.ub_seen(0, "begin"); // forget reports that belong to nobody
+        o.line(json!({"begin": true}));
+        match case["kind"].as_str().unwrap_or("") {
+            "idset" => match case["ty"].as_str().unwrap_or("string") {
+                "string" => idset::<String>(&case, &mut o),
+                "u32" => idset::<u32>(&case, &mut o),
+                "arr4" => idset::<[u64; 4]>(&case, &mut o),
+                _ => o.line(json!({"unsupported": "ty"})),
+            },
+            "arena" => arena(&case, &mut o),
+            _ => o.line(json!({"unsupported": "kind"})),
+        }
+        o.line(json!({"end": true}));
+    }
+}
+
+struct Out<'a> {
+    f: &'a mut std::fs::File,
+    id: String,
+    probe: Option<UbProbe>,
+}
+
+impl Out<'_> {
+    /// did the sanitizer report an error since the last call? then say so (the caller abandons the case)
+    fn ub_seen(&mut self, k: usize, phase: &str) -> bool {
+        match self.probe.and_then(|p| p()) {
+            Some(report) if k > 0 => {
+                self.line(json!({"k": k, "ub": report, "phase": phase}));
+                true
+            }
+            _ => false,
+        }
+    }
+
+    fn line(&mut self, mut v: J) {
+        v.as_object_mut()
+            .unwrap()
+            .insert("id".to_string(), J::String(self.id.clone()));
+        // one write per line, unbuffered: everything before a sanitizer abort is on disk
+        let s = format!("{}\n", v);
+        self.f.write_all(s.as_bytes()).unwrap();
+    }
+}
+
+// ------------------------------------------------------------------------------------------ IdSet
+
+trait Val: Hash + Eq + Clone + Default {
+    fn mk(s: &str) -> Self;
+    fn show(&self) -> String;
+}
+
+impl Val for String {
+    fn mk(s: &str) -> Self {
+        s.to_string()
+    }
+    fn show(&self) -> String {
+        // a dangling String may hold anything: keep the observation line valid JSON and short
+        if self.len() > 64 {
+            return format!("#len{}", self.len());
+        }
+        let b = self.as_bytes();
+        if b.iter().all(|c| c.is_ascii_graphic()) {
+            String::from_utf8_lossy(b).into_owned()
+        } else {
+            format!("#{:02x?}", b)
+        }
+    }
+}
+
+impl Val for u32 {
+    fn mk(s: &str) -> Self {
+        s.bytes().next().unwrap_or(0) as u32
+    }
+    fn show(&self) -> String {
+        match char::from_u32(*self) {
+            Some(c) if c.is_ascii_graphic() => c.to_string(),
+            _ => format!("#{}", self),
+        }
+    }
+}
+
+impl Val for [u64; 4] {
+    fn mk(s: &str) -> Self {
+        let b = s.bytes().next().unwrap_or(0) as u64;
+        [b, b + 1, b + 2, b + 3]
+    }
+    fn show(&self) -> String {
+        let b = self[0];
+        if *self == [b, b + 1, b + 2, b + 3] && (33..127).contains(&b) {
+            (b as u8 as char).to_string()
+        } else {
+            format!("#{:?}", self)
+        }
+    }
+}
+
+fn caught<R>(f: impl FnOnce() -> R) -> Result<R, ()> {
+    catch_unwind(AssertUnwindSafe(f)).map_err(|_| ())
+}
+
+/// everything the safe read-only API tells about one instance
+fn project<T: Val>(set: &mut IdSet<T>, probe: &[String]) -> J {
+    let mut m = Map::new();
+    m.insert("len".into(), json!(set.len()));
+    m.insert("empty".into(), json!(set.is_empty()));
+    m.insert(
+        "iter".into(),
+        J::Array(set.iter().map(|v| J::String(v.show())).collect()),
+    );
+    let mut n2 = 0usize;
+    let mut same = true;
+    for (i, v) in (&*set).into_iter().enumerate() {
+        n2 += 1;
+        same &= set.iter().nth(i).map(|w| w == v).unwrap_or(false);
+    }
+    m.insert("iter_ref_agrees".into(), json!(same && n2 == set.iter().count()));
+    let mut ids = Map::new();
+    let mut has = Map::new();
+    let mut getid = Map::new();
+    for (i, p) in probe.iter().enumerate() {
+        let v = T::mk(p);
+        ids.insert(
+            p.clone(),
+            match set.try_get_id(&v) {
+                Some(id) => json!(id),
+                None => json!(-1),
+            },
+        );
+        has.insert(p.clone(), json!(set.contains(&v)));
+        // get_id panics on an absent value: called where contains() said yes, and on the last probe value
+        // (-3 = not called; unwinding is slow under the sanitizers)
+        let call = set.contains(&v) || i + 1 == probe.len();
+        getid.insert(
+            p.clone(),
+            if !call {
+                json!(-3)
+            } else {
+                match caught(|| set.get_id(&v)) {
+                    Ok(id) => json!(id),
+                    Err(()) => json!(-2),
+                }
+            },
+        );
+    }
+    // in probe order
+    let inorder = |m: &Map<String, J>| J::Array(probe.iter().map(|p| m[p].clone()).collect());
+    m.insert("ids".into(), inorder(&ids));
+    m.insert("has".into(), inorder(&has));
+    m.insert("get_id".into(), inorder(&getid));
+    // index / index_mut for every id 0..len, and one past the end
+    let n = set.len() as u32;
+    let mut at = vec![];
+    let mut atm = vec![];
+    for id in 0..n {
+        at.push(match caught(|| set[id].show()) {
+            Ok(s) => J::String(s),
+            Err(()) => json!({"panic": true}),
+        });
+        atm.push(match caught(|| (&mut set[id]).show()) {
+            Ok(s) => J::String(s),
+            Err(()) => json!({"panic": true}),
+        });
+    }
+    m.insert("at".into(), J::Array(at));
+    m.insert("at_mut".into(), J::Array(atm));
+    m.insert(
+        "at_len".into(),
+        match caught(|| set[n].show()) {
+            Ok(s) => J::String(s),
+            Err(()) => json!("panic"),
+        },
+    );
+    J::Object(m)
+}
+
+fn idset<T: Val>(case: &J, o: &mut Out) {
+    let probe: Vec<String> = case["probe"]
+        .as_array()
+        .map(|a| a.iter().filter_map(|x| x.as_str().map(String::from)).collect())
+        .unwrap_or_default();
+    let nslots = case["nslots"].as_u64().unwrap_or(2) as usize;
+    let obs_from = case["obs_from"].as_u64().unwrap_or(1) as usize;
+    let mut slots: Vec<Option<IdSet<T>>> = (0..nslots).map(|_| None).collect();
+    slots[0] = Some(IdSet::new());
+    let empty = vec![];
+    let ops = case["ops"].as_array().unwrap_or(&empty);
+    for (k, op) in ops.iter().enumerate() {
+        let k = k + 1;
+        let s = op["s"].as_u64().unwrap_or(0) as usize;
+        let d = op["d"].as_u64().unwrap_or(0) as usize;
+        let mut r = Map::new();
+        r.insert("op".into(), op["op"].clone());
+        match op["op"].as_str().unwrap_or("") {
+            "insert" => {
+                let v = T::mk(op["v"].as_str().unwrap_or(""));
+                let id = slots[s].as_mut().unwrap().insert(v);
+                r.insert("id".into(), json!(id));
+            }
+            "clear" => slots[s].as_mut().unwrap().clear(),
+            "clone" => {
+                let c = slots[s].as_ref().unwrap().clone();
+                slots[d] = Some(c);
+            }
+            "move" => {
+                let c = slots[s].take();
+                slots[d] = c;
+            }
+            "drop" => {
+                slots[s] = None;
+            }
+            "consume" => {
+                let set = slots[s].take().unwrap();
+                let items: Vec<J> = set.into_iter().map(|v| J::String(v.show())).collect();
+                r.insert("items".into(), J::Array(items));
+            }
+            "new" => slots[s] = Some(IdSet::new()),
+            "default" => slots[s] = Some(IdSet::default()),
+            _ => {
+                r.insert("unsupported".into(), json!(true));
+            }
+        }
+        if o.ub_seen(k, "op") {
+            std::mem::forget(slots);
+            return;
+        }
+        o.line(json!({"k": k, "op": J::Object(r)}));
+        if k >= obs_from {
+            let mut proj = vec![];
+            for sl in slots.iter_mut() {
+                proj.push(match sl {
+                    None => json!({"live": false}),
+                    Some(set) => {
+                        let mut p = project(set, &probe);
+                        p.as_object_mut().unwrap().insert("live".into(), json!(true));
+                        p
+                    }
+                });
+            }
+            if o.ub_seen(k, "proj") {
+                std::mem::forget(slots);
+                return;
+            }
+            o.line(json!({"k": k, "proj": proj}));
+        }
+    }
+    // remaining instances are dropped here, in slot order
+    drop(slots);
+    o.ub_seen(ops.len().max(1), "end");
+}
+
+// ------------------------------------------------------------------------------------------ Arena
+
+// One concrete type per (size, align): size_of::<V<N, A>>() == N and align_of == A when A divides N.
+macro_rules! aligned_types {
+    ($($name:ident $al:literal),*) => {
+        $(
+            #[derive(Clone, Copy, PartialEq)]
+            #[repr(C, align($al))]
+            struct $name<const N: usize>([u8; N]);
+        )*
+    };
+}
+aligned_types!(V1 1, V2 2, V4 4, V8 8, V16 16, V32 32, V64 64);
+
+struct Rec<'a> {
+    addr: usize,
+    size: usize,
+    align: usize,
+    intact: Box<dyn Fn() -> bool + 'a>,
+}
+
+fn alloc_rec<'a, T: Copy + PartialEq + 'a>(arena: &'a Arena, v: T) -> Rec<'a> {
+    let r: Ar<'a, T> = arena.alloc(v);
+    // the address of the returned reference, obtained through safe Deref
+    let addr = (&*r) as *const T as usize;
+    Rec {
+        addr,
+        size: size_of::<T>(),
+        align: align_of::<T>(),
+        intact: Box::new(move || *r == v),
+    }
+}
+
+macro_rules! dispatch {
+    ($arena:expr, $size:expr, $align:expr, $pat:expr, [$($s:literal),*]) => {
+        match ($size, $align) {
+            $(
+                ($s, 1) => Some(alloc_rec($arena, V1::<$s>([$pat; $s]))),
+                ($s, 2) if $s % 2 == 0 => Some(alloc_rec($arena, V2::<$s>([$pat; $s]))),
+                ($s, 4) if $s % 4 == 0 => Some(alloc_rec($arena, V4::<$s>([$pat; $s]))),
+                ($s, 8) if $s % 8 == 0 => Some(alloc_rec($arena, V8::<$s>([$pat; $s]))),
+                ($s, 16) if $s % 16 == 0 => Some(alloc_rec($arena, V16::<$s>([$pat; $s]))),
+                ($s, 32) if $s % 32 == 0 => Some(alloc_rec($arena, V32::<$s>([$pat; $s]))),
+                ($s, 64) if $s % 64 == 0 => Some(alloc_rec($arena, V64::<$s>([$pat; $s]))),
+            )*
+            _ => None,
+        }
+    };
+}
+
+fn alloc_dyn<'a>(arena: &'a Arena, size: usize, align: usize, pat: u8) -> Option<Rec<'a>> {
+    dispatch!(
+        arena,
+        size,
+        align,
+        pat,
+        [0, 1, 2, 3, 4, 5, 6, 8, 12, 16, 24, 32, 48, 64, 96, 128, 192, 256]
+    )
+}
+
+fn arena(case: &J, o: &mut Out) {
+    let cap = case["cap"].as_i64().unwrap_or(-1);
+    let arena = if cap < 0 {
+        Arena::new()
+    } else {
+        Arena::with_capacity(cap as usize)
+    };
+    let empty = vec![];
+    let allocs = case["allocs"].as_array().unwrap_or(&empty);
+    let mut recs: Vec<Rec> = vec![];
+    for (k, a) in allocs.iter().enumerate() {
+        let size = a["size"].as_u64().unwrap_or(0) as usize;
+        let align = a["align"].as_u64().unwrap_or(1) as usize;
+        let pat = (17 * (k + 1) % 251) as u8;
+        let Some(rec) = alloc_dyn(&arena, size, align, pat) else {
+            o.line(json!({"k": k + 1, "unsupported": [size, align]}));
+            return;
+        };
+        recs.push(rec);
+        if o.ub_seen(k + 1, "op") {
+            std::mem::forget(recs);
+            std::mem::forget(arena);
+            return;
+        }
+        let rec = recs.last().unwrap();
+        // addresses are 64 bit, TLC integers 32 bit: high and low part (20 bits) separately
+        o.line(json!({"k": k + 1, "op": {
+            "hi": rec.addr >> 20, "lo": rec.addr & 0xFFFFF, "mod64": rec.addr % 64,
+            "size": rec.size, "align": rec.align}}));
+        // every value allocated so far is read back through its reference
+        let intact: Vec<bool> = recs.iter().map(|r| (r.intact)()).collect();
+        if o.ub_seen(k + 1, "proj") {
+            std::mem::forget(recs);
+            std::mem::forget(arena);
+            return;
+        }
+        o.line(json!({"k": k + 1, "proj": intact}));
+    }
+    let n = allocs.len().max(1);
+    drop(recs);
+    drop(arena);
+    o.ub_seen(n, "end");
 }
